@@ -145,16 +145,17 @@ Proof.
   { rewrite Hraw. unfold mem_norm. rewrite rotl_list_length, sumR_rotl_list by lia. reflexivity. }
   assert (G : mem_guard th' a1 b1 a2 b2 = mem_guard th a1 b1 a2 b2).
   { rewrite !mem_guard_unfold. f_equal; [|rewrite Hnorm; reflexivity]. fold p q.
-    change (existsb (fun t => if Req_EM_T (mem_den p q t) 0 then true else false) th')
-      with (existsb (fun t => (fun v => if Req_EM_T v 0 then true else false) (mem_den p q t)) th').
-    change (existsb (fun t => if Req_EM_T (mem_den p q t) 0 then true else false) th)
-      with (existsb (fun t => (fun v => if Req_EM_T v 0 then true else false) (mem_den p q t)) th).
-    rewrite <- !(existsb_map (fun v => if Req_EM_T v 0 then true else false) (mem_den p q)).
-    unfold th'. rewrite (map_shift_ugrid (mem_den p q)) by (auto using mem_den_cs).
+    assert (Ex : forall l, existsb (fun t => if Req_EM_T (mem_den p q t) 0 then true else false) l
+                           = existsb (fun v => if Req_EM_T v 0 then true else false) (map (mem_den p q) l)).
+    { intro l. rewrite existsb_map. reflexivity. }
+    rewrite !Ex. unfold th', th. rewrite (map_shift_ugrid (mem_den p q)) by (auto using mem_den_cs).
     apply existsb_In_equiv. intro x. apply rotl_list_In. rewrite map_length, ugrid_length. auto. }
   rewrite G. destruct (mem_guard th a1 b1 a2 b2); [|reflexivity].
   simpl. f_equal. rewrite Hnorm, Hraw. symmetry. apply rotl_list_map.
 Qed.
+
+Lemma V4_ext : forall a b : V4, q1 a = q1 b -> q2 a = q2 b -> q3 a = q3 b -> q4 a = q4 b -> a = b.
+Proof. intros [a1 a2 a3 a4] [b1 b2 b3 b4]; simpl; intros; congruence. Qed.
 
 (* ---------------- MEM2 on a uniform grid (constant increments) ---------------- *)
 Section Mem2Uniform.
@@ -175,7 +176,7 @@ Section Mem2Uniform.
   Lemma d_len : length d = length th.
   Proof. unfold d. apply map_length. Qed.
   Lemma d_len' : length d = length th'.
-  Proof. rewrite d_len. unfold th, th'. rewrite th'_length. fold th'. unfold th. rewrite ugrid_length. reflexivity. Qed.
+  Proof. rewrite d_len, th'_length. unfold th. apply ugrid_length. Qed.
   Lemma th_ne : th <> [].
   Proof. unfold th, ugrid. destruct n; [lia|]. simpl. congruence. Qed.
   Lemma th'_ne : th' <> [].
@@ -224,7 +225,7 @@ Section Mem2Uniform.
       rewrite Pf_shift, Zf_shift. reflexivity. }
     pose proof (E 0%nat) as E0. pose proof (E 1%nat) as E1. pose proof (E 2%nat) as E2. pose proof (E 3%nat) as E3.
     simpl in E0, E1, E2, E3.
-    destruct (constraints l mo d th'), (constraints l mo d th). simpl in *. congruence.
+    apply V4_ext; assumption.
   Qed.
 
   (* equivariance of the constraint function: the exact solution set is equivariant *)
